@@ -2488,10 +2488,13 @@ class Transport(threading.Thread, ClosingContextManager):
             self.clear_to_send_lock.release()
         self.gss_kex_used = False
         self.in_kex = True
-        kex_algos = list(self.preferred_kex)
         if self.server_mode:
             mp_required_prefix = "diffie-hellman-group-exchange-sha"
-            kex_mp = [k for k in kex_algos if k.startswith(mp_required_prefix)]
+            kex_mp = [
+                k
+                for k in self.preferred_kex
+                if k.startswith(mp_required_prefix)
+            ]
             if (self._modulus_pack is None) and (len(kex_mp) > 0):
                 # can't do group-exchange if we don't have a pack of potential
                 # primes
@@ -2501,6 +2504,10 @@ class Transport(threading.Thread, ClosingContextManager):
                     if not k.startswith(mp_required_prefix)
                 ]
                 self.get_security_options().kex = pkex
+        # NOTE: only now, so that we never advertise group-exchange methods
+        # we just ruled out (the peer might pick one; we would not)
+        kex_algos = list(self.preferred_kex)
+        if self.server_mode:
             available_server_keys = list(
                 filter(
                     list(self.server_key_dict.keys()).__contains__,
